@@ -197,6 +197,9 @@ func init() {
 			reach := frame.Reachable(env.Prog, roots)
 			g.Static = append(g.Static, frame.MapRanges(env.Prog, reach, mapRangeJustifications(env), checkJustification(env))...)
 			g.Static = append(g.Static, boundedC03Filter(env))
+			// the filter directives of every file of the build directory are applied: Build hands
+			// each file's text through directive.Run and writes what it returns
+			g.Static = append(g.Static, buildShape(env, g)...)
 			if fn := env.Prog.Func("pkg/prebuild/directive", "Run"); fn != nil {
 				g.addFunc(env, fn)
 				g.Static = append(g.Static, frame.DirectiveRunShape(env.Prog, fn))
@@ -391,6 +394,9 @@ func init() {
 			// the directives of every file of the build directory are expanded: Build hands each
 			// file's text through directive.Run and writes what it returns
 			g.Static = append(g.Static, buildShape(env, g)...)
+			// "no #aa: directive remains" for the filter directives, inline ones included: the
+			// C03 text-surgery stand-in (labelled bounded) runs here as well
+			g.Static = append(g.Static, boundedC03Filter(env))
 			g.Static = append(g.Static, boundedC07Exec(env))
 			g.Static = append(g.Static, boundedC07Stack(env))
 			g.Unverified = []string{
